@@ -45,7 +45,16 @@ class C15(E1Prop):
                 self.script = [
                     {'op': 'eval', 'p': p, 'dt': 1},
                 ]
-                if rng.random() < 0.6:
+                if rng.random() < 0.3:
+                    # the author adds a commit and merges the branch into an
+                    # integration branch by hand (a true merge commit with a
+                    # resolution of their own) before the robot looks
+                    self.script.append({'op': 'commit', 'p': p,
+                                        'kind': 'new', 'dt': 5})
+                    self.script.append({
+                        'op': 'wcommit', 'p': p, 'vi': rng.randrange(3),
+                        'kind': 'merge', 'actor': None, 'dt': 5})
+                elif rng.random() < 0.6:
                     self.script.append({
                         'op': 'wcommit', 'p': p, 'vi': rng.randrange(3),
                         'kind': rng.choice(['plain', 'plain', 'merge']),
